@@ -11,10 +11,11 @@ CONSTANTS
   JBoxes = {"none"}
   JunkNames = {"Junk"}
   QuarSet = {FALSE, TRUE}
+  WatchSet = {TRUE}
   EnvActs = {}
   DelAccts = {}
   Faults = FALSE
-  Devs = {"CaseKey", "MapErrPerm", "BlobLeak"}
+  Devs = {"CaseKey", "MapErrPerm", "BlobLeak", "EarlyNotify"}
   Gen = FALSE
 VIEW View
 INVARIANTS NoViolation
